@@ -266,15 +266,14 @@ Proof.
   rewrite H5 in EU. unfold numbered. rewrite H2.
   destruct nu as [|x nu'].
   - (* the head is fresh *)
-    inversion H6; subst. cbn [app] in EU. assert (n = e) by lia. subst n.
-    inversion H7 as [E1 E2|o d r Hd Hs Hc E1 E2|Hf E1 E2]; subst.
-    + rewrite <- E2 in EU. discriminate.
-    + rewrite <- E2 in EU. inversion EU; subst. cbn. left. exists d, [], (e + len d), rest.
+    inversion H6; subst. cbn [app] in EU. subst fr. assert (n = e) by lia. subst n.
+    inversion H7 as [|o d r Hd Hs Hc E1 E2|Hf E1 E2]; subst.
+    + cbn. left. exists d, [], (e + len d), rest.
       repeat split; auto; [apply ch_nil|pose proof (len_nonneg d); lia].
-    + rewrite <- E2 in EU. inversion EU; subst. cbn. right. repeat split; auto.
+    + cbn. right. repeat split; auto.
       replace (len W + 1) with (total W true) by reflexivity. apply fr_nil.
   - cbn [app] in EU. inversion EU; subst x rest.
-    inversion H6 as [o E1 E2 E3|o d r e' Hd Hs Hc E1 E2 E3|Hf E1 E2 E3]; subst.
+    inversion H6 as [|o d r e' Hd Hs Hc E1 E2 E3|Hf E1 E2 E3]; subst.
     + cbn. left. exists d, nu', e, fr. repeat split; auto.
     + cbn. right. repeat split; auto.
 Qed.
@@ -327,8 +326,10 @@ Proof.
       { unfold InvA. rewrite N1, N2, N3, N4, N5, N6, N7, I1, I3.
         exists (m + av), e1, fl, (mkW (seq_of (m + av)) fDATA (dropZ av d) :: nu1), fr1. rewrite Er.
         repeat split; auto; try lia.
-        - replace (m + av) with (m + len (takeZ av d)) at 2 by (rewrite len_takeZ; lia).
-          apply chain_snoc_data; [exact Hsent|apply takeZ_nonnil; [lia|exact Hd]|apply slice_take, Hs].
+        - assert (C : chain W fin a (wsent (SN t) ++ [mkW (seq_of m) fDATA (takeZ av d)])
+                        (m + len (takeZ av d))).
+          { apply chain_snoc_data; [exact Hsent|apply takeZ_nonnil; [lia|exact Hd]|apply slice_take, Hs]. }
+          rewrite len_takeZ in C by lia. exact C.
         - apply ch_data; [apply dropZ_nonnil; lia|apply slice_drop; [exact Hs|lia]|].
           rewrite len_dropZ by lia. replace (m + av + (len d - av)) with (m + len d) by lia. exact Hc. }
       exists n'. split; [lia|]. split; [exact HI'|eapply Ext_trans; eauto].
@@ -349,6 +350,7 @@ Proof.
       exists n'. split; [lia|]. split; [exact HI'|eapply Ext_trans; eauto].
   - (* FIN *)
     rewrite Ed, Eq. change (len [] =? 0) with true. cbn match. rewrite seq_of_add.
+    change (Z.lor fAck fFin) with 17.
     subst fin.
     match goal with |- context [emit t ?s' ?dd ?ff ?sq ?se] =>
       destruct (emit_spec W true t s' dd ff sq se (len W + 1) n) as (X & N1 & N2 & N3 & N4 & N5 & N6 & N7);
@@ -363,6 +365,246 @@ Proof.
       - subst m. eapply chain_app; [exact Hsent|]. apply ch_fin. reflexivity.
       - apply ch_nil. }
     exists n'. split; [lia|]. split; [exact HI'|eapply Ext_trans; eauto].
+Qed.
+
+(* ------------------------------------------------------------------ sendData *)
+
+Lemma InvA_mp W fin a n s : InvA W fin a n s -> 1 <= maxPayload s.
+Proof. unfold InvA, InvC. intros (m & e & fl & nu & fr & H). tauto. Qed.
+
+Lemma sendData_ok W fin t idle a n :
+  InvA W fin a n (SN t) ->
+  exists n', n <= n' /\ InvA W fin a n' (SN (sendData t idle)) /\ Ext W fin t (sendData t idle).
+Proof.
+  intros HI. unfold sendData. cbv zeta.
+  set (s1 := if negb (frActive (SN t)) && idle && (InitialCwnd <? cwnd (SN t))
+             then (SN t) <| cwnd := InitialCwnd |> else SN t).
+  assert (H1 : InvA W fin a n s1).
+  { subst s1. destruct (_ && _); [|exact HI]. upd HI. }
+  clearbody s1.
+  assert (H1' : InvA W fin a n (SN (t <| SN := s1 |>))) by exact H1.
+  destruct (sendLoop_ok W fin (S (wbytes (wunsent s1))) (t <| SN := s1 |>)
+              (add (sndUna s1) (sndWnd s1)) (maxPayload s1) a n (InvA_mp _ _ _ _ _ H1) H1')
+    as (n' & Hn & HI' & X).
+  exists n'. split; [exact Hn|].
+  assert (X0 : Ext W fin t (t <| SN := s1 |>)) by (apply Ext_pure; reflexivity).
+  destruct (_ && _).
+  - split; [upd HI'|]. eapply Ext_trans; [exact X0|]. eapply Ext_trans; [exact X|].
+    apply Ext_pure; reflexivity.
+  - split; [exact HI'|]. eapply Ext_trans; eauto.
+Qed.
+
+(* ------------------------------------------------------------------ duplicate acks, fast retransmit *)
+
+Lemma InvA_facts W fin a n s : InvA W fin a n s ->
+  sndUna s = seq_of a /\ sndNxt s = seq_of n /\ 0 <= a /\ a <= n /\ n <= len W + 1 /\ len W < BOUND /\
+    exists fl, frLast s = seq_of fl /\ -1 <= fl < n.
+Proof.
+  unfold InvA. intros (m & e & fl & nu & fr & H1 & H2 & H3 & H4 & H5 & H6 & H7 & H8 & H9 & H10 & H11 & H12 & H13 & H14 & H15 & H16).
+  pose proof (fresh_hi _ _ _ _ H7) as Hhi.
+  assert (Ht : total W fin <= len W + 1) by (unfold total; destruct fin; lia).
+  repeat split; auto; try lia. exists fl. auto.
+Qed.
+
+Lemma cda_ok W fin a n s ack sl wnd s2 rtx :
+  InvA W fin a n s -> is_u32 ack -> checkDuplicateAck s ack sl wnd = (s2, rtx) ->
+  InvA W fin a n s2 /\ (rtx = true -> exists k, ack = seq_of k /\ a <= k < n).
+Proof.
+  intros HI Hu. destruct (InvA_facts _ _ _ _ _ HI) as (E1 & E2 & Ha & Han & Hn & HB & fl & E3 & Hfl).
+  bnd. unfold checkDuplicateAck. cbv zeta.
+  destruct (frActive s).
+  - destruct (negb (inRange ack (sndUna s) (u32 (sndNxt s + 1)))) eqn:R.
+    { intros E; inversion E; subst. split; [exact HI|discriminate]. }
+    destruct (lessThan (frLast s) ack) eqn:L.
+    { intros E; inversion E; subst. split; [|discriminate]. unfold leaveFastRecovery. upd HI. }
+    destruct (_ || _).
+    { intros E; inversion E; subst. split; [exact HI|discriminate]. }
+    destruct (ack =? frFirst s).
+    { intros E; inversion E; subst. split; [|discriminate]. destruct (_ <? _); [upd HI|exact HI]. }
+    intros E; inversion E; subst. split; [upd HI|]. intros _.
+    rewrite E1, E2 in R. apply negb_false_iff in R.
+    destruct (dupack_in_range iss a n ack Hu ltac:(consts; lia) R) as (k & Hk & ->).
+    exists k. split; [reflexivity|]. rewrite E3, lessThan_offsets in L by (consts; lia). lia.
+  - destruct (_ || _) eqn:C.
+    { intros E; inversion E; subst. split; [upd HI|discriminate]. }
+    destruct (_ <? _).
+    { intros E; inversion E; subst. split; [upd HI|discriminate]. }
+    destruct (lessThan (frLast _) ack); cbn [negb].
+    2:{ intros E; inversion E; subst. split; [upd HI|discriminate]. }
+    intros E; inversion E; subst. split.
+    + unfold enterFastRecovery, reduceSsthresh. upd HI.
+    + intros _. exists a. rewrite E1, E2 in C.
+      assert (ack = seq_of a /\ ack <> seq_of n) as [-> Hne] by lia.
+      split; [reflexivity|]. assert (a <> n) by congruence. lia.
+Qed.
+
+Lemma head_numbered W fin a n s : InvA W fin a n s -> a < n ->
+  exists w l, wsent s ++ wunsent s = w :: l /\
+    forall ak wnd, good_frame W fin (mkF (w_seq w) ak (w_flags w) wnd (w_data w)).
+Proof.
+  unfold InvA. intros (m & e & fl & nu & fr & H1 & H2 & H3 & H4 & H5 & H6 & H7 & H8 & H9 & H10 & H11 & H12 & H13 & H14 & H15 & H16) L.
+  pose proof (chain_app _ _ _ _ _ _ _ _ H4 H6) as C. rewrite H5, app_assoc.
+  destruct (wsent s ++ nu) as [|w l] eqn:EL.
+  - inversion C; subst. lia.
+  - exists w, (l ++ fr). split; [reflexivity|]. intros ak wnd.
+    inversion C as [|o d r e' Hd Hs Hc E1 E2 E3|Hf E1 E2 E3]; subst; cbn [w_seq w_flags w_data].
+    + apply good_data. exact Hs.
+    + apply good_fin.
+Qed.
+
+Lemma resend_ok W fin t a n : InvA W fin a n (SN t) -> a < n ->
+  InvA W fin a n (SN (resendSegment t)) /\ Ext W fin t (resendSegment t).
+Proof.
+  intros HI L. unfold resendSegment. cbv zeta. cbn [SN set]. cbn.
+  destruct (head_numbered _ _ _ _ _ HI L) as (w & l & E & G). rewrite E.
+  split.
+  - rewrite sendSegment_SN. cbn. upd HI.
+  - eapply Ext_trans; [|apply sendSegment_Ext; exact G]. apply Ext_pure; reflexivity.
+Qed.
+
+(* ------------------------------------------------------------------ ack processing *)
+
+(* the part of sender.handleRcvdSegment that removes acknowledged data *)
+Definition ackStep (t : tcp) (s3 : sndr) (sg : seg) (clampRto : Z) : tcp :=
+  let ack := s_ack sg in
+  let t3 := t <| SN := s3 |> in
+  if inRange (u32 (ack - 1)) (sndUna s3) (sndNxt s3) then
+    let s4 := s3 <| dupAck := 0 |> <| tstate := if tstate s3 =? tDisabled then tDisabled else tOrphaned |> in
+    let s5 := if tsOk t && s_tsecr sg then s4 <| rto := clampRto |> else s4 in
+    let acked := size (sndUna s5) ack in
+    let '(sent', unsent', removed) :=
+      ackLoop (S (length (wsent s5) + length (wunsent s5))) (wsent s5) (wunsent s5) acked 0 in
+    let s6 := s5 <| sndUna := ack |> <| wsent := sent' |> <| wunsent := unsent' |>
+                 <| outstanding := outstanding s5 - removed |> in
+    let s7 := if frActive s6 then s6 else renoUpdate s6 removed in
+    let s8 := if outstanding s7 <? 0 then s7 <| outstanding := 0 |> else s7 in
+    t3 <| SN := s8 |> <| sndBufUsed := sndBufUsed t3 - acked |>
+  else t3.
+
+Lemma sndHandle_eq t sg wnd newRto idle :
+  sndHandle t sg wnd newRto idle =
+  let s0 := SN t in
+  let clampRto := if newRto <? minRTO then minRTO else newRto in
+  let s1 := if negb (tsOk t) && lessThan (rttSeq s0) (s_ack sg)
+            then s0 <| rto := clampRto |> <| rttSeq := sndNxt s0 |> else s0 in
+  let segLog := plogicalLen (s_flags sg) (s_data sg) in
+  let '(s2, rtx) := checkDuplicateAck s1 (s_ack sg) segLog wnd in
+  let t4 := ackStep t (s2 <| sndWnd := wnd |>) sg clampRto in
+  let t5 := if rtx then resendSegment t4 else t4 in
+  sendData t5 idle.
+Proof.
+  unfold sndHandle, ackStep. cbv zeta.
+  destruct (checkDuplicateAck _ _ _ _) as [s2 rtx]. reflexivity.
+Qed.
+
+Lemma renoCA_core s k : core_eq s (renoCA s k).
+Proof. unfold renoCA. cbv zeta. destruct (_ <=? _); unfold core_eq; cbn; repeat split. Qed.
+Lemma renoUpdate_core s k : core_eq s (renoUpdate s k).
+Proof.
+  unfold renoUpdate. destruct (_ <? _); [|apply renoCA_core]. cbv zeta.
+  destruct (ssthresh s <=? cwnd s + k).
+  - destruct (_ =? 0); [unfold core_eq; cbn; repeat split|].
+    eapply core_eq_trans; [|apply renoCA_core]. unfold core_eq; cbn; repeat split.
+  - destruct (_ =? 0); [unfold core_eq; cbn; repeat split|].
+    eapply core_eq_trans; [|apply renoCA_core]. unfold core_eq; cbn; repeat split.
+Qed.
+
+Lemma ackStep_ok W fin t s3 sg clampRto a n :
+  InvA W fin a n s3 -> is_u32 (s_ack sg) ->
+  exists a', a <= a' /\ InvA W fin a' n (SN (ackStep t s3 sg clampRto)) /\
+    Ext W fin t (ackStep t s3 sg clampRto) /\
+    (forall k, s_ack sg = seq_of k -> a <= k < n -> a' < n).
+Proof.
+  intros HI Hu. pose proof HI as HI0.
+  destruct (InvA_facts _ _ _ _ _ HI) as (E1 & E2 & Ha & Han & Hn & HB & fl & E3 & Hfl).
+  unfold ackStep. cbv zeta.
+  destruct (inRange _ _ _) eqn:R.
+  2:{ exists a. split; [lia|]. split; [exact HI|]. split; [apply Ext_pure; reflexivity|]. intros; lia. }
+  bnd. rewrite E1, E2 in R.
+  destruct (ack_in_range iss a n (s_ack sg) Hu ltac:(consts; lia) R) as (k & Hk & Eack & Esz).
+  set (s5 := if tsOk t && s_tsecr sg then _ else _).
+  assert (H5 : InvA W fin a n s5).
+  { subst s5. destruct (_ && _); upd HI. }
+  assert (EU5 : sndUna s5 = sndUna s3) by (subst s5; destruct (_ && _); reflexivity).
+  clearbody s5. rewrite EU5, E1, Esz.
+  unfold InvA in H5.
+  destruct H5 as (m & e & fl' & nu & fr & H1 & H2 & H3 & H4 & H5 & H6 & H7 & H8 & H9 & H10 & H11 & H12 & H13 & H14 & H15 & H16).
+  destruct (ackLoop_sent W fin a (wsent s5) m H4 H16
+              (S (length (wsent s5) + length (wunsent s5))) nu fr k 0 e H6 ltac:(lia))
+    as (sent' & nu' & r' & m' & EA & C1 & C2 & EM).
+  { rewrite H5, app_length. lia. }
+  rewrite <- H5 in EA. rewrite EA.
+  exists (a + k). split; [lia|]. split; [|split].
+  - set (s6 := s5 <| sndUna := s_ack sg |> <| wsent := sent' |> <| wunsent := nu' ++ fr |>
+                  <| outstanding := outstanding s5 - r' |>).
+    assert (I6 : InvA W fin (a + k) n s6).
+    { unfold InvA. subst s6. cbn. rewrite H2, H3, H12.
+      exists m', e, fl', nu', fr. repeat split; auto; lia. }
+    clearbody s6.
+    set (s7 := if frActive s6 then s6 else renoUpdate s6 r').
+    assert (I7 : InvA W fin (a + k) n s7).
+    { subst s7. destruct (frActive s6); [exact I6|].
+      eapply InvA_core; [apply renoUpdate_core|exact I6]. }
+    clearbody s7. cbn [SN set]. cbn.
+    destruct (_ <? 0); [upd I7|exact I7].
+  - apply Ext_pure; reflexivity.
+  - intros k0 E0 Hk0. rewrite Eack in E0. apply seq_of_inj in E0; [lia|consts; lia].
+Qed.
+
+Lemma sndHandle_ok W fin t sg wnd newRto idle a n :
+  InvA W fin a n (SN t) -> is_u32 (s_ack sg) ->
+  exists a' n', InvA W fin a' n' (SN (sndHandle t sg wnd newRto idle)) /\
+    Ext W fin t (sndHandle t sg wnd newRto idle).
+Proof.
+  intros HI Hu. rewrite sndHandle_eq. cbv zeta.
+  set (s1 := if negb (tsOk t) && lessThan (rttSeq (SN t)) (s_ack sg) then _ else _).
+  assert (H1 : InvA W fin a n s1).
+  { subst s1. destruct (_ && _); [upd HI|exact HI]. }
+  clearbody s1.
+  destruct (checkDuplicateAck s1 (s_ack sg) (plogicalLen (s_flags sg) (s_data sg)) wnd) as [s2 rtx] eqn:EC.
+  destruct (cda_ok _ _ _ _ _ _ _ _ _ _ H1 Hu EC) as (H2 & Hrtx).
+  assert (H3 : InvA W fin a n (s2 <| sndWnd := wnd |>)) by upd H2.
+  destruct (ackStep_ok W fin t (s2 <| sndWnd := wnd |>) sg
+              (if newRto <? minRTO then minRTO else newRto) a n H3 Hu) as (a' & Ha' & H4 & X4 & Hlt).
+  set (t4 := ackStep t (s2 <| sndWnd := wnd |>) sg (if newRto <? minRTO then minRTO else newRto)) in *.
+  clearbody t4.
+  assert (H5 : InvA W fin a' n (SN (if rtx then resendSegment t4 else t4)) /\
+    Ext W fin t4 (if rtx then resendSegment t4 else t4)).
+  { destruct rtx; [|split; [exact H4|apply Ext_refl]].
+    destruct (Hrtx eq_refl) as (k & Ek & Hk). apply resend_ok; [exact H4|]. eapply Hlt; eauto. }
+  destruct H5 as [H5 X5].
+  destruct (sendData_ok W fin _ idle a' n H5) as (n' & Hn' & H6 & X6).
+  exists a', n'. split; [exact H6|]. eapply Ext_trans; [exact X4|]. eapply Ext_trans; eauto.
+Qed.
+
+(* ------------------------------------------------------------------ retransmission time-out *)
+
+Lemma rtoExpired_ok W fin t idle a n :
+  InvA W fin a n (SN t) ->
+  exists n', InvA W fin a n' (SN (fst (rtoExpired t idle))) /\ Ext W fin t (fst (rtoExpired t idle)).
+Proof.
+  intros HI. unfold rtoExpired. cbv zeta.
+  destruct (tstate (SN t) =? tOrphaned).
+  { exists n. cbn. split; [upd HI|apply Ext_pure; reflexivity]. }
+  destruct (negb (tstate (SN t) =? tEnabled)).
+  { exists n. cbn. split; [exact HI|apply Ext_refl]. }
+  cbn [rto set]. cbn.
+  destruct (maxRTO <=? rto (SN t)).
+  { exists n. cbn. split; [upd HI|apply Ext_pure; reflexivity]. }
+  cbn [fst].
+  match goal with |- context [sendData (t <| SN := ?s5 |>) idle] => set (S5 := s5) end.
+  assert (H5 : InvA W fin a n S5).
+  { subst S5. destruct (InvA_facts _ _ _ _ _ HI) as (E1 & E2 & Ha & Han & Hn & HB & fl & E3 & Hfl).
+    unfold InvA in *.
+    destruct HI as (m & e & fl' & nu & fr & H1 & H2 & H3 & H4 & H5 & H6 & H7 & H8 & H9 & H10 & H11 & H12 & H13 & H14 & H15 & H16).
+    unfold reduceSsthresh, leaveFastRecovery. destruct (frActive (SN t)); cbn;
+      rewrite H1, H3, H5, app_assoc, H2, seq_of_pred;
+      exists a, e, (n - 1), (wsent (SN t) ++ nu), fr;
+      (repeat split; auto; try lia; [apply ch_nil|eapply chain_app; eauto]). }
+  clearbody S5.
+  assert (H5' : InvA W fin a n (SN (t <| SN := S5 |>))) by exact H5.
+  destruct (sendData_ok W fin (t <| SN := S5 |>) idle a n H5') as (n' & Hn' & H6 & X6).
+  exists n'. split; [exact H6|]. eapply Ext_trans; [|exact X6]. apply Ext_pure; reflexivity.
 Qed.
 
 End Snd.
